@@ -62,7 +62,8 @@ def run(ctx):
     #     real BlockSigningRater built from each configuration
     beh = ctx.path("edges.ndjson")
     g = ctx.tlc(sd, "MC_Rating", cfg("gen.cfg", spec="GenSpec", log="LogAppend", depth=2, pens="MCPensExact",
-                                     maxs="4" if q else "4, 7", layouts="2, 3" if q else "1, 2, 3",
+                                     maxs="4" if q else "7", layouts="2, 3" if q else "1, 2, 3", decps="MCDecPs",
+                                     incvs="1, 2" if q else "1",
                                      rest="VIEW cvars\nACTION_CONSTRAINT EmitEdge"),
                 timeout=1500, behaviours_out=beh, count=False)
     if g.ok and g.behaviours == 0:
@@ -80,7 +81,7 @@ def run(ctx):
 
     # R3: random RatingsConfig values through the real NewRatingsData + NewBlockSigningRater; derived steps read back
     tr = os.path.join(sd, "trace.ndjson")
-    nconf = 25 if q else 250
+    nconf = 25 if q else 80
     r3 = ctx.vh(exe, ["record", ctx.seed, nconf, tr])
     st, line = vlib.validate_trace(ctx, sd, "Trace_Rating", "Trace_Rating.cfg", tr, int(r3.stats.get("events", 0)),
                                    "C37/trace", divergence_is_violation=False, obs_cfg=OBS, timeout=1500,
